@@ -5,16 +5,8 @@ Models: `Rustic/Model/TreeOps.lean` (`blob/tree.rs merge_trees / merge_nodes`, `
 `commands/{copy,merge,rewrite}.rs`, `commands/repair/snapshots.rs`).  All statements quantify over every list
 of trees of any size and depth, every exclusion predicate, every index, every destination.
 
-FULL STATEMENT of the copy clause (not provable of the current code):
-  destComplete (copyStep dst roots reach) roots reach = true          — for every source repository
-Missing hypothesis of `copy_restores_same_partial`: `TypedDisjoint` (no blob id is needed both as a tree and as a
-data blob).  The data blobs are copied first; the tree packer shares the *untyped* `Indexer.indexed` id set with
-the data packer and silently skips a tree whose id equals a copied data blob's (DESIGN §7 #7, witness
-`copy_loses_tree_on_id_collision`, replayed on the real code by corpus/C12/copy_collision.ops; known finding,
-the indexer is repaired by another builder).
-Repaired: `merge_trees` ordered its heap by the escaped node name while trees are sorted by the unescaped name,
-yielding duplicate entries for names containing `"`, `\`, control or non-unicode bytes (witness
-corpus/C12/merge_escaped_order.ops); the model compares names in the order the trees are sorted by.
+The copy clause is proved at full strength since the indexer repair c65a201 (`copy_restores_same`); the behaviour of
+the code before it is kept as `copyStepUntyped` with the witness `copy_lost_tree_on_id_collision_before_fix`.
 -/
 import Rustic.Lemmas.TreeOps
 namespace Rustic.Props.C12
@@ -123,20 +115,22 @@ theorem repair_kept_files_keep_content (ix : Idx) (root : List RT) :
 
 /-! ## copy -/
 
-/-- (C1) When no needed id is both a tree and a data blob, after `copy` the destination holds every tree and
-every chunk reachable from the copied snapshots (blobs already present are not copied again and stay). -/
-theorem copy_restores_same_partial (dst : Dest) (roots : List Nat) (reach : List CTree)
-    (h : TypedDisjoint dst roots reach) : destComplete (copyStep dst roots reach) roots reach = true :=
-  copy_complete h
+/-- (C1) After `copy` the destination holds every tree and every chunk reachable from the copied snapshots
+(blobs already present are not copied again and stay) — for every source repository, including tree/data id
+collisions (the indexer's set is typed since the repair c65a201). -/
+theorem copy_restores_same (dst : Dest) (roots : List Nat) (reach : List CTree) :
+    destComplete (copyStep dst roots reach) roots reach = true :=
+  copy_complete dst roots reach
 
 /-- DESIGN §7 #7: snapshot 1 = {src → {d → f, g}} where file `g`'s chunk id equals the id of tree `d` (id 3). -/
 def collision : List CTree := [⟨1, [2], []⟩, ⟨2, [3], [3]⟩, ⟨3, [], [4]⟩]
 
-theorem copy_loses_tree_on_id_collision :
-    destComplete (copyStep ⟨[], []⟩ [1] collision) [1] collision = false ∧
-    ¬ TypedDisjoint ⟨[], []⟩ [1] collision := by
-  refine ⟨by decide, fun h => ?_⟩
-  exact h 3 (by decide) (by decide)
+/-- With the untyped id set of the code before c65a201 the copy lost tree 3 (witness replayed on the real code by
+corpus/C12/copy_collision.ops: it failed before the repair and passes now). -/
+theorem copy_lost_tree_on_id_collision_before_fix :
+    destComplete (copyStepUntyped ⟨[], []⟩ [1] collision) [1] collision = false ∧
+    destComplete (copyStep ⟨[], []⟩ [1] collision) [1] collision = true := by
+  refine ⟨by decide, by decide⟩
 
 /-! ## non-vacuity -/
 
